@@ -607,6 +607,11 @@ func (rule *RuleAction) checkAction(meta *ActionMetadata, exec *ExecAction, desc
 	for _, id := range ids {
 		i := meta.Inputs[id]
 		if i.Required {
+			// "args" and "entrypoint" keys in "with:" are not stored in exec.Inputs. They also supply
+			// the input when the action defines an input named "args" or "entrypoint"
+			if id == "args" && exec.Args != nil || id == "entrypoint" && exec.Entrypoint != nil {
+				continue
+			}
 			if _, ok := exec.Inputs[id]; !ok {
 				ns := make([]string, 0, len(meta.Inputs))
 				for _, i := range meta.Inputs {
